@@ -35,7 +35,7 @@ def parseSectionE (h : Hooks) : Nat → Bytes → Nat → St → Except Err (Sec
         match h.codec g with
         | some c =>
           -- (Q) decodes `buf[DataOffset:]` (to the end of the file, not of the section)
-          if dataOffset > buf.length then .error .panic else
+          if dataOffset > buf.length then .error .err else  -- repaired (fix 6750af4)
           match c.decode (buf.drop dataOffset) with
           | some enc =>
             match parseEncapE h fuel enc 0 0 st with
@@ -73,7 +73,7 @@ def parseEncapE (h : Hooks) : Nat → Bytes → Nat → Nat → St → Except Er
       | .error e => .error e
       | .ok (s, st') =>
         -- (Q) no zero-size check here: Go would spin forever, appending the same section
-        if s.info.extSize = 0 then .error .hang else
+        if s.info.extSize = 0 then .error .err else  -- repaired (fix 9e390db)
         match parseEncapE h fuel enc (align4 (offset + s.info.extSize)) (idx + 1) st' with
         | .error e => .error e
         | .ok (ns, st'') => .ok (.sec s :: ns, st'')
